@@ -124,7 +124,7 @@ def handleKernel (fs : List (String × String)) : String :=
         else none
       -- 16-bit components on SSE4.1, vertical pass: rows cut into chunks of 16, (once) 8 and (once) 4 components
       let laneV16 : Option String :=
-        if p.kind == .u16 ∧ ext == "sse4" ∧ pass == "v" ∧ got.size == dw * dh * p.n then Id.run do
+        if p.kind == .u16 ∧ (ext == "sse4" ∨ ext == "avx2") ∧ pass == "v" ∧ got.size == dw * dh * p.n then Id.run do
           let q := normalize32 c
           let n := p.n
           let rowLen := dw * n
@@ -140,6 +140,10 @@ def handleKernel (fs : List (String × String)) : String :=
               outRow := outRow ++ SimdVertU16.chunk16 q.precision rows ksl xs
               xs := xs + 16
               done := done + 16
+            if ext == "avx2" ∧ rowLen - done > 0 then
+              -- AVX2 tail: the same 16-lane computation on a zero-padded buffer, the first components kept
+              outRow := outRow ++ (SimdVertU16.chunk16 q.precision rows ksl xs).take (rowLen - done)
+              done := rowLen
             if rowLen - done ≥ 8 then
               outRow := outRow ++ SimdVertU16.block8 q.precision rows ksl xs
               xs := xs + 8
@@ -152,7 +156,7 @@ def handleKernel (fs : List (String × String)) : String :=
               outRow := outRow ++ [clip16 (2 ^ (q.precision - 1) + SimdVertU16.dotV16 rows ksl (xs + j)) q.precision]
             for i in [0:rowLen] do
               if outRow.getD i 0 ≠ got[y * rowLen + i]! then
-                return some s!"lane model of the SSE4.1 vertical u16 kernel: row {y} component {i}: model={outRow.getD i 0} got={got[y * rowLen + i]!}"
+                return some s!"lane model of the {ext} vertical u16 kernel: row {y} component {i}: model={outRow.getD i 0} got={got[y * rowLen + i]!}"
           return none
         else none
       let lane := match lane, laneV, lane3, laneV16 with
